@@ -111,7 +111,7 @@ def main(ctx):
                                            if k.startswith("uri|")}
     for ep in ("named", "mixed", "var+ct", "named+ct", "mixed+ct"):
         ctx.require("endpoint_signature|%s" % ep)
-    for n in ("session_reused", "session_rejoined_on_same_transport", "service_object_falsy", "service_object_truthy", "receive_progress_false"):
+    for n in ("session_reused", "session_rejoined_on_same_transport", "invocation_while_unregistering", "service_object_falsy", "service_object_truthy", "receive_progress_false"):
         ctx.require(n)
     for fw in FWS:
         for beh in BEHAVIOURS:
@@ -755,11 +755,18 @@ def job(a):
                     one_case(acc, dict(base, invs=[{"beh": behs[0], "rp": rp}, {"beh": behs[1], "rp": rp}],
                                        det=det, script=script, coalesce=False))
                     acc.inc("two_concurrent|%s|%s" % (a["tkind"], acc.fw))
+                    if a["level"] == 2 and len(script) >= 2 and script[0][0] == "inv" and script[1][0] == "inv":
+                        # both INVOCATIONs in one segment, cut into three reads that are queued together:
+                        # the read that completes the first frame carries the start of the second
+                        one_case(acc, dict(base, invs=[{"beh": behs[0], "rp": rp}, {"beh": behs[1], "rp": rp}],
+                                           det=det, script=script, coalesce=True, burst=True))
+                        acc.inc("burst_two_frames|%s|%s" % (a["tkind"], acc.fw))
     elif kind == "unknown":
         unknown_cases(acc, base)
     elif kind == "reuse":
         reuse_cases(acc)
         rejoin_cases(acc)
+        unregister_cases(acc)
     return acc.result()
 
 
@@ -902,6 +909,65 @@ def reuse_cases(acc):
                     "register(obj) on a %s service object: methods saw %r (expected %r), sent %r (expected %r), "
                     "raised %r %r" % ("falsy" if falsy else "truthy", svc.seen, want_seen, new, want_new, e1, e2),
                     {"kind": "reuse"})
+
+
+def unregister_cases(acc):
+    """an INVOCATION for a registration the application is unregistering: until the router has confirmed
+    (UNREGISTERED) the registration is active at the router, so an INVOCATION that the router dispatched
+    before it processed the UNREGISTER - or any INVOCATION after it REFUSED the UNREGISTER - is invoked
+    and answered exactly once; the transport stays up"""
+    from harness import wamp_l1 as H
+    from autobahn.wamp import message as M
+    fw = acc.fw
+    for variant in ("invocation-before-unregistered", "unregister-refused", "refused-then-second-unregister"):
+        l1 = H.L1()
+        l1.join()
+        s = l1.session
+        calls = []
+
+        def ep(*a_, **k_):
+            calls.append(a_)
+            return 42
+        l1.track("reg", s.register(ep, "com.unreg.p"))
+        l1.settle()
+        rq = [m for m in l1.transport.sent if isinstance(m, M.Register)][-1].request
+        l1.deliver(M.Registered(rq, 700))
+        reg = l1.fstate("reg")[1]
+        l1.track("unreg", reg.unregister())
+        l1.settle()
+        ur = [m for m in l1.transport.sent if isinstance(m, M.Unregister)]
+        case = {"kind": "reuse", "unregister": variant}
+        acc.evals += 1
+        acc.inc("nontrivial")
+        acc.inc("invocation_while_unregistering")
+        if len(ur) != 1:
+            acc.bad("C10|unregister-wire|%s" % fw, "unregister(): UNREGISTER messages %r" % (ur,), case)
+            continue
+        if variant != "invocation-before-unregistered":
+            e0 = l1.deliver(M.Error(M.Unregister.MESSAGE_TYPE, ur[0].request, "wamp.error.not_authorized"))
+            if e0 is not None:
+                acc.bad("C10|unregister-refusal-rejected|%s" % fw, "ERROR for UNREGISTER raised %r" % (e0,), case)
+                continue
+        n0 = len(l1.transport.sent)
+        exc = l1.deliver(M.Invocation(1001, 700, args=[7]))
+        l1.settle()
+        new = l1.transport.sent[n0:]
+        ok = (exc is None and calls == [(7,)] and len(new) == 1 and isinstance(new[0], M.Yield) and
+              new[0].request == 1001 and l1.transport.open)
+        if not ok:
+            acc.bad("C10|invocation-while-unregistering-not-answered|%s" % fw,
+                    "%s: INVOCATION 1001 for registration 700 raised %r, endpoint calls %r, sent %r, transport open=%s" % (
+                        variant, exc, calls, [(type(m).__name__, getattr(m, "request", None)) for m in new],
+                        l1.transport.open), case)
+            continue
+        if variant == "refused-then-second-unregister":
+            # the registration is still the application's: it can be unregistered again
+            r2 = l1.api(reg.unregister)
+            l1.settle()
+            ur2 = [m for m in l1.transport.sent if isinstance(m, M.Unregister)]
+            if r2[0] == "raise" or len(ur2) != 2:
+                acc.bad("C10|second-unregister-after-refusal|%s" % fw, "second unregister(): %r, UNREGISTER messages %d" % (
+                    r2[:1] if r2[0] != "raise" else r2, len(ur2)), case)
 
 
 def rejoin_cases(acc):
